@@ -184,7 +184,7 @@ func decodeStrings(v *Violation) map[string]string {
 			}
 		}
 		ok := false
-		for _, mid := range []string{"~", "m", "!", "\x01"} {
+		for _, mid := range []string{"m", "z", "a", "0", "~", "!", "\x01"} {
 			n++
 			cand := prev + mid + "s" + strconv.Itoa(n)
 			if g.atoiOK != nil && !*g.atoiOK {
